@@ -7,7 +7,7 @@ import struct
 from pathlib import Path
 
 from vf.core import SECTOR, BytesModel, ConcatModel, Model, as_handle, rng_for
-from vf.diskcheck import compare_reads, crossing_count, gen_requests
+from vf.diskcheck import compare_reads, continuation_reads, crossing_count, gen_requests
 from vf.monitors import call
 from vf.writers import hds as w
 
@@ -29,7 +29,7 @@ ASSUMPTIONS = [
     "the harness's HDS writer/reference reader are a faithful reading of the ploop/Parallels layout",
     "held means: held on the executions listed, not verified for all inputs",
 ]
-MINIMA = {"quick": {"reads_compared": 3000, "coincidence_cases": 20, "multi_storage_cases": 8}, "thorough": {"reads_compared": 300000}}
+MINIMA = {"quick": {"reads_compared": 3000, "coincidence_cases": 20, "multi_storage_cases": 8, "relocated_absolute_path_cases": 8, "snapshot_reopen_cases": 8}, "thorough": {"reads_compared": 300000}}
 MECH = "hds.read"
 DATA = os.path.join(os.environ.get("VF_REPO", "/repo"), "tests", "data")
 
@@ -51,6 +51,10 @@ def plan(tier: str, seed: int) -> list[dict]:
         cases.append({"k": "plain", "i": i})
     for i in range(16 if tier == "quick" else 200):
         cases.append({"k": "multi", "i": i})
+    for i in range(16 if tier == "quick" else 200):
+        cases.append({"k": "abs", "i": i})
+    for i in range(16 if tier == "quick" else 200):
+        cases.append({"k": "snap", "i": i})
     fx = ["expanding.hdd", "split.hdd"] + (["plain.hdd"] if tier == "thorough" else [])
     for f in fx:
         cases.append({"k": "fixture", "name": f, "weight": 60})
@@ -146,6 +150,59 @@ def run(case: dict, ctx) -> dict:
         res["sample"] = {"fixture": case["name"], "size": model.size, "requests": reqs[:3]}
         return res
 
+    if k == "snap":
+        # a disk with snapshot levels, the same HDD object opened repeatedly (each open() is its own view)
+        from vf import chains
+
+        o = call(chains.hdd_snapshots, rng, ctx, depth=rng.choice([2, 3]), top_mode=rng.choice(["default", "explicit"]),
+                 nstorages=rng.choice([1, 1, 2]), base_plain=rng.random() < 0.3, open_guid=rng.choice(["top", "some"]))
+        if not o.ok:
+            res["viol"].append({"what": f"open failed on a conformant snapshot disk: {o.brief()}", "mech": MECH, "detail": {"tb": o.tb}})
+            return res
+        op = o.value
+        reqs, _ = gen_requests(rng, op.model.size, [4096], n_random=20, pair_cap=40)
+        reqs.append((0, op.model.size))
+        compare_reads(op.stream, op.model, reqs, res, MECH, byte_cap=8 << 20)
+        for rep in range(3):
+            gid, lm = op.levels[op.info["opened_depth"] - 1] if rep != 1 else rng.choice(op.levels)
+            o3 = call(op.hdd.open, gid)
+            if not o3.ok:
+                res["viol"].append({"what": f"open #{rep + 2} on the same HDD object failed: {o3.brief()}", "mech": MECH, "detail": {"tb": o3.tb}})
+                break
+            n0 = len(res["viol"])
+            compare_reads(o3.value, lm, [(0, lm.size)] + reqs[:10], res, MECH, byte_cap=8 << 20)
+            if len(res["viol"]) > n0:
+                res["viol"][-1]["what"] += f" (open #{rep + 2} on the same HDD object)"
+                break
+        res["cnt"]["snapshot_reopen_cases"] = 1
+        res["nontrivial"] = True
+        res["sig"] = ("snap", case["i"], op.model.size)
+        res["sample"] = {"snapshot_disk": op.info}
+        return res
+
+    if k == "abs":
+        from vf import chains
+
+        o = call(chains.hdd_abs, rng, ctx)
+        if not o.ok:
+            res["viol"].append({"what": f"open failed although a relocation candidate holds the image: {o.brief()}", "mech": MECH, "detail": {"tb": o.tb}})
+            return res
+        op = o.value
+        reqs, _ = gen_requests(rng, op.model.size, [4096], n_random=30)
+        reqs.append((0, op.model.size))
+        compare_reads(op.stream, op.model, reqs, res, MECH)
+        o2 = call(op.hdd.open)
+        if o2.ok:
+            compare_reads(o2.value, op.model, reqs[:20], res, MECH)
+        else:
+            res["viol"].append({"what": f"second open() on the same HDD object failed: {o2.brief()}", "mech": MECH, "detail": {"tb": o2.tb}})
+        res["cnt"]["relocated_absolute_path_cases"] = 1
+        res["sets"]["relocation_variants"] = [op.info["variant"]]
+        res["nontrivial"] = True
+        res["sig"] = ("abs", case["i"], op.info["variant"])
+        res["sample"] = {"relocation": op.info}
+        return res
+
     if k == "multi":
         # several storages (expanding and plain) behind one HDD: holes of a later storage must read as zeros
         from vf import streams
@@ -219,6 +276,7 @@ def run(case: dict, ctx) -> dict:
         res["viol"].append({"what": "size mismatch", "mech": MECH, "detail": {"got": st.size, "exp": meta["size"]}})
     cs = meta["cluster_size"]
     reqs, exhaustive = gen_requests(rng, meta["size"], [cs], n_random=40 if ctx.tier == "quick" else 150)
+    continuation_reads(st, model, reqs, rng, res, MECH)
     compare_reads(st, model, reqs, res, MECH)
     if fh is not None and fh.mutations:
         res["viol"].append({"what": "handle mutated", "mech": "c09.handle", "detail": {"m": fh.mutations[:3]}})
